@@ -230,6 +230,42 @@ DICT_MUTATORS = {"update": ("PyRt.dict_update", 1)}
 DICT_METHODS = {"copy": ("PyRt.dict_copy", 0), "keys": ("PyRt.dict_keys", 0), "items": ("PyRt.dict_items", 0)}
 OPERATOR_FN = {"lt": "PyRt.lt {a} {b}", "le": "PyRt.le {a} {b}", "gt": "PyRt.gt {a} {b}", "ge": "PyRt.ge {a} {b}",
                "eq": "pure (PyRt.eq {a} {b})", "ne": "pure (PyRt.ne {a} {b})"}
+# --- x3: the parser (C07, C08, C09): functions over a shared, mutated `Tokenizer` run in the state monad `PyTok.TM`; the
+# tokenizer's methods are primitives of lean/PkgModel/PyTok.lean
+SELECTED += [
+    ("process_env_var", "packaging._parser", "process_env_var"),
+    ("process_python_str", "packaging._parser", "process_python_str"),
+    ("_parse_marker_var", "packaging._parser", "_parse_marker_var"),
+    ("_parse_marker_op", "packaging._parser", "_parse_marker_op"),
+    ("_parse_marker_item", "packaging._parser", "_parse_marker_item"),
+    ("_parse_marker_atom", "packaging._parser", "_parse_marker_atom"),
+    ("_parse_marker", "packaging._parser", "_parse_marker"),
+    ("_parse_full_marker", "packaging._parser", "_parse_full_marker"),
+    ("parse_marker", "packaging._parser", "parse_marker"),
+    ("_parse_version_many", "packaging._parser", "_parse_version_many"),
+    ("_parse_specifier", "packaging._parser", "_parse_specifier"),
+    ("_parse_extras_list", "packaging._parser", "_parse_extras_list"),
+    ("_parse_extras", "packaging._parser", "_parse_extras"),
+    ("_parse_requirement_marker", "packaging._parser", "_parse_requirement_marker"),
+    ("_parse_requirement_details", "packaging._parser", "_parse_requirement_details"),
+    ("_parse_requirement", "packaging._parser", "_parse_requirement"),
+    ("parse_requirement", "packaging._parser", "parse_requirement"),
+]
+TRACKED += [("packaging._parser", "ParsedRequirement")]
+STATE_CLASS = ("packaging._tokenizer", "Tokenizer")
+STATE_MONAD = "PyTok.TM"
+STATE_IMPORT = "PkgModel.PyTok"
+# method -> (primitive, positional arguments kept, keyword arguments kept (with their defaults))
+STATE_METHODS = {
+    "check": ("PyTok.check", 1, {"peek": "(PyVal.bool false)"}),
+    "read": ("PyTok.read", 0, {}),
+    "expect": ("PyTok.expect", 1, {}),                  # `expected=` is only the message
+    "consume": ("PyTok.consume", 1, {}),
+    "raise_syntax_error": ("PyTok.raise_syntax_error", 0, {}),   # message and span are not kept
+}
+# the primitives mirror this text of the class (doc strings and comments aside): sha256 of the ast dump of its methods
+STATE_GUARD = "bf841c8223628ed05d38c233699386b97f8813a766c28f2f299b42cdd65e0654"
+EXTERNAL_MODULE_CALLS = {("ast", "literal_eval"): ("PyTok.literal_eval", STATE_IMPORT)}
 # --- x3 end ---------------------------------------------------------------------------------------------------------
 
 
@@ -250,6 +286,10 @@ class Fn:
         if len(qn) == 2 and qn[0] in self.globals and inspect.isclass(self.globals[qn[0]]):
             self.owner = self.globals[qn[0]]
         self._class_guard = set()
+        self.state_param = None    # x3: name of the parameter that holds the shared, mutated Tokenizer
+        a0 = self.node.args.args[0] if self.node.args.args else None
+        if a0 is not None and ctx.is_state_fn(pyfunc):
+            self.state_param = a0.arg
         self.fn_locals = {}        # local name -> ("get_operator", class, receiver term, operator term)
         self.dict_locals = {}      # local name -> {constant key: Lean local holding the value}
 
@@ -354,7 +394,7 @@ class Fn:
             for name in _targets_of(n):
                 if name not in assigned:
                     assigned.append(name)
-            if isinstance(n, (ast.Global, ast.Nonlocal, ast.While, ast.With, ast.AsyncFor, ast.AsyncWith, ast.Delete,
+            if isinstance(n, (ast.Global, ast.Nonlocal, ast.AsyncFor, ast.AsyncWith, ast.Delete,
                               ast.ClassDef, ast.FunctionDef, ast.AsyncFunctionDef, ast.Match, ast.Import, ast.ImportFrom)):
                 raise Unsupported(f"statement {type(n).__name__}")
         # loop variables that are read after their loop (Python leaks them) or assigned elsewhere become ordinary locals
@@ -603,6 +643,20 @@ class Fn:
                     for o in outs[1:]:
                         nd = nd & o
                     d = nd
+                elif isinstance(st, ast.While):               # x3
+                    expr_loads(st.test, d)
+                    block(st.body, set(d))
+                    if st.orelse:
+                        raise Unsupported("while ... else")
+                elif isinstance(st, ast.With):                # x3
+                    for it in st.items:
+                        expr_loads(it.context_expr, d)
+                        if it.optional_vars is not None:
+                            raise Unsupported("with ... as")
+                    r = block(st.body, d)
+                    if r is None:
+                        return None
+                    d = r
                 elif isinstance(st, (ast.Expr, ast.Assert)):
                     expr_loads(st.value if isinstance(st, ast.Expr) else st.test, d)
                 elif isinstance(st, ast.Pass):
@@ -637,14 +691,23 @@ class Fn:
             self.emit(1, "return " + self.default_return())
         env = "(env : PyRt.Env) " if self.lean_name in self.ctx.uses_env else ""
         env += "(ext : PyRt.Oracle) " if self.lean_name in self.ctx.uses_ext else ""          # x3
+        monad = "M"
+        if self.state_param is not None:                                                       # x3: state monad
+            monad = STATE_MONAD
+            self.ctx.imports.add(STATE_IMPORT)
+            self.ctx.state_fns.add(self.lean_name)
+            params = [p for p in params if p != self.state_param]
+            sig = " ".join(lname(p) for p in params)
+        if getattr(self, "has_while", False):
+            self.ctx.loops.add(self.lean_name)
         if self.lean_name in self.ctx.recursive:                                               # x3: fuel
             ps = [lname(p) for p in params]
             self.lines[self.head_index] = (
-                f"def {self.lean_name}__fuel {env}: Nat" + "".join(" → PyVal" for _ in ps) + " → M PyVal\n"
+                f"def {self.lean_name}__fuel {env}: Nat" + "".join(" → PyVal" for _ in ps) + f" → {monad} PyVal\n"
                 f"  | 0" + "".join(", _" for _ in ps) + ' => throw "RecursionError"\n'
                 f"  | __fuel + 1" + "".join(", " + q for q in ps) + " => do")
             return "\n".join([self.lines[self.head_index]] + ["  " + l for l in self.lines[self.head_index + 1:]])
-        self.lines[self.head_index] = f"def {self.lean_name} {env}" + (f"({sig} : PyVal) " if params else "") + ": M PyVal := do"
+        self.lines[self.head_index] = f"def {self.lean_name} {env}" + (f"({sig} : PyVal) " if params else "") + f": {monad} PyVal := do"
         return "\n".join(self.lines)
 
     def default_return(self):
@@ -761,9 +824,13 @@ class Fn:
             else:
                 raise Unsupported("loop target")
             saved = set(self.declared)
+            self.loop_stack = getattr(self, "loop_stack", []) + [None]
             self.block(st.body, ind + 1)
+            self.loop_stack = self.loop_stack[:-1]
             self.declared = saved | (self.declared & set(self.hoisted))
         elif isinstance(st, (ast.Break,)):
+            if getattr(self, "loop_stack", None) and self.loop_stack[-1] is not None:
+                self.emit(ind, f"{self.loop_stack[-1]} := true")        # x3: a `while` loop that ended by itself
             self.emit(ind, "break")
         elif isinstance(st, ast.Continue):
             self.emit(ind, "continue")
@@ -1095,6 +1162,8 @@ class Fn:
 
     def name(self, e):
         n = e.id
+        if n == getattr(self, "state_param", None) and n not in self.bound_stack():
+            raise Unsupported(f"the {STATE_CLASS[1]} parameter used as a value")
         if n in self.bound_stack():
             return True, lname(n)
         if n in self.locals:
@@ -1384,6 +1453,11 @@ class Fn:
                                        f"else {self.ctx.require(obj.fget)} {lname(selfname)})")
                     raise Unsupported(f"super().{e.attr} is not a property")
             raise Unsupported(f"super().{e.attr} not found")
+        if isinstance(base, ast.Name) and base.id == getattr(self, "state_param", None) and base.id not in self.bound_stack():
+            if e.attr == "position":                                                                 # x3
+                self.x3_state_guard()
+                return False, "PyTok.position"
+            raise Unsupported(f"attribute .{e.attr} of the {STATE_CLASS[1]}")
         if e.attr == "__name__" and isinstance(base, ast.Attribute) and base.attr == "__class__":       # x3
             return True, f"(PyVal.str (Py.ofString (PyRt.className {self.val(base.value)})))"
         dotted = _dotted(e)
@@ -2036,7 +2110,59 @@ class Fn:
                 new_args[i] = ast.copy_location(ast.Name(id=t, ctx=ast.Load()), a)
         return ast.copy_location(ast.Call(func=value.func, args=new_args, keywords=[]), value)
 
+    def x3_state_guard(self):
+        """the primitives of PyTok.lean mirror one text of the Tokenizer class"""
+        cls = getattr(importlib.import_module(STATE_CLASS[0]), STATE_CLASS[1])
+        if _class_digest(cls) != STATE_GUARD:
+            raise Unsupported(f"the source of {STATE_CLASS[1]} is not the text its run-time primitives mirror")
+
+    def x3_uses_state(self, nodes):
+        return self.state_param is not None and any(
+            isinstance(n, ast.Name) and n.id == self.state_param for st in nodes for n in ast.walk(st))
+
     def x3_stmt(self, st, ind):
+        if isinstance(st, ast.Try) and self.x3_uses_state(st.body):
+            # a handler would see the tokenizer as it was when the `try` began (state monad), not as Python leaves it
+            raise Unsupported(f"the {STATE_CLASS[1]} is used inside a try block")
+        if isinstance(st, ast.While):
+            if st.orelse:
+                raise Unsupported("while ... else")
+            self.has_while = True
+            if self.lean_name not in self.ctx.recursive:
+                self.ctx.loops.add(self.lean_name)
+                raise Unsupported("while loop (fuel is added on the next pass)")
+            done = self.fresh("done")
+            self.emit(ind, f"let mut {done} := false")
+            self.emit(ind, f"for __i in List.range (__fuel + 1) do")
+            if not (isinstance(st.test, ast.Constant) and st.test.value is True):
+                self.emit(ind + 1, f"if !({self.cond(st.test)}) then")
+                self.emit(ind + 2, f"{done} := true")
+                self.emit(ind + 2, "break")
+            saved = set(self.declared)
+            self.loop_stack = getattr(self, "loop_stack", []) + [done]
+            self.block(st.body, ind + 1)
+            self.loop_stack = self.loop_stack[:-1]
+            self.declared = saved | (self.declared & set(self.hoisted))
+            self.emit(ind, f'if !{done} then throw "RecursionError"')
+            return True
+        if isinstance(st, ast.With):
+            if len(st.items) != 1 or st.items[0].optional_vars is not None:
+                raise Unsupported("with statement other than one context manager without `as`")
+            c = st.items[0].context_expr
+            if not (isinstance(c, ast.Call) and isinstance(c.func, ast.Attribute) and isinstance(c.func.value, ast.Name)
+                    and c.func.value.id == self.state_param and c.func.attr == "enclosing_tokens" and len(c.args) == 2
+                    and all(k.arg == "around" for k in c.keywords)):
+                raise Unsupported("with statement other than tokenizer.enclosing_tokens(open, close, around=…)")
+            for n in _walk_scope(st.body):
+                if isinstance(n, (ast.Return, ast.Break, ast.Continue)):
+                    raise Unsupported("return / break / continue inside a with block")
+            self.x3_state_guard()
+            w = self.fresh("w")
+            op_, cl_ = self.val(c.args[0]), self.val(c.args[1])
+            self.emit(ind, f"let {w} ← PyTok.enclosing_open {op_}")
+            self.block(st.body, ind)
+            self.emit(ind, f"let _ ← PyTok.enclosing_close {w} {cl_}")
+            return True
         if isinstance(st, ast.Assign) and len(st.targets) == 1 and isinstance(st.targets[0], ast.Subscript):
             t = st.targets[0]
             if isinstance(t.value, ast.Name) and t.value.id in getattr(self, "owned2", ()) and not isinstance(t.slice, ast.Slice):
@@ -2072,6 +2198,11 @@ class Fn:
         return False
 
     def x3_expr_stmt(self, e, ind):
+        if isinstance(e, ast.Call) and isinstance(e.func, ast.Attribute) and isinstance(e.func.value, ast.Name) \
+                and self.state_param is not None and e.func.value.id == self.state_param:
+            p, c = self.expr(e)                  # a tokenizer method called for its effect
+            self.emit(ind, f"let _ ← {c}")
+            return True
         if isinstance(e, ast.Call) and hasattr(self, "owned2") and self.x3_ipf_arg(e) is not None:
             self.x3_rebind_ipf(e, ind)
             return True
@@ -2212,8 +2343,50 @@ class Fn:
     def x3_call(self, e, kws):
         f = e.func
         oracles = self.x3_oracles()
+        if isinstance(f, ast.Attribute) and isinstance(f.value, ast.Name) and f.value.id == self.state_param \
+                and f.value.id not in self.bound_stack():
+            if f.attr not in STATE_METHODS:
+                raise Unsupported(f"method .{f.attr} of the {STATE_CLASS[1]}")
+            self.x3_state_guard()
+            fn, npos, kwd = STATE_METHODS[f.attr]
+            if any(isinstance(a, ast.Starred) for a in e.args):
+                raise Unsupported("*args in a call")
+            args = [self.val(a) for a in e.args[:npos]]
+            if len(args) < npos:
+                raise Unsupported(f"arguments of .{f.attr}")
+            for k, d in kwd.items():
+                args.append(self.val(kws[k]) if k in kws else d)
+            return False, fn + "".join(" " + a for a in args)
         if isinstance(f, ast.Name) and f.id not in self.locals and f.id not in self.bound_stack():
             v = self.globals.get(f.id)
+            if inspect.isfunction(v) and (v.__module__ or "").startswith("packaging") and self.ctx.is_state_fn(v):
+                if not e.args or any(isinstance(a, ast.Starred) for a in e.args):
+                    raise Unsupported("call of a parser function without its tokenizer")
+                a0 = e.args[0]
+                ln = self.ctx.lean_name_of(v)
+                if ln is not None:
+                    self.ctx.need(v)
+                else:
+                    ln = self.ctx.require(v)
+                rest = self.bind_args(v, e.args[1:], kws, skip_self=True)
+                term = self.call_selected(ln, rest)
+                if isinstance(a0, ast.Name) and a0.id == self.state_param:
+                    return False, term
+                if isinstance(a0, ast.Call) and isinstance(a0.func, ast.Name) and a0.func.id == STATE_CLASS[1] \
+                        and len(a0.args) == 1 and len(a0.keywords) == 1 and a0.keywords[0].arg == "rules" \
+                        and isinstance(a0.keywords[0].value, ast.Name) and a0.keywords[0].value.id == "DEFAULT_RULES" \
+                        and self.state_param is None:
+                    self.x3_state_guard()
+                    self.ctx.imports.add(STATE_IMPORT)
+                    src = self.val(a0.args[0])
+                    return False, f"PyTok.run ({term}) (← PyTok.new {src})"
+                raise Unsupported("a parser function called with something other than the tokenizer at hand")
+            if inspect.isclass(v) and self.ctx.is_tracked(v) and issubclass(v, tuple) and hasattr(v, "_fields") \
+                    and not inspect.isfunction(self.ctx.lookup(v, "__init__")):
+                if kws or len(e.args) != len(v._fields) or any(isinstance(a, ast.Starred) for a in e.args):
+                    raise Unsupported("named tuple built other than from all its fields in order")
+                fields = ", ".join(f'("{k}", {self.val(a)})' for k, a in zip(v._fields, e.args))
+                return True, f'(PyVal.obj "{v.__name__}" [{fields}])' 
             if f.id in oracles:
                 if any(isinstance(a, ast.Starred) for a in e.args):
                     raise Unsupported("*args in a call")
@@ -2256,6 +2429,11 @@ class Fn:
                     return False, f"{DICT_METHODS[f.attr][0]} {self.val(f.value)}"
             dotted = _dotted(f)
             is_module = dotted and dotted[0] not in self.locals and inspect.ismodule(self.globals.get(dotted[0]))
+            if is_module and len(dotted) == 2 and (self.globals[dotted[0]].__name__, dotted[1]) in EXTERNAL_MODULE_CALLS \
+                    and len(e.args) == 1 and not kws:
+                fn, imp = EXTERNAL_MODULE_CALLS[(self.globals[dotted[0]].__name__, dotted[1])]
+                self.ctx.imports.add(imp)
+                return False, f"{fn} {self.val(e.args[0])}"
             if c is None and not is_module and f.attr not in METHODS and f.attr not in MUTATORS and self.ctx.defined_by_tracked(f.attr) \
                     and not kws and not any(isinstance(a, ast.Starred) for a in e.args):
                 recv = self.val(f.value)
@@ -2288,6 +2466,20 @@ def _is_fresh_list(v):
     if isinstance(v, ast.BinOp) and isinstance(v.op, (ast.Add, ast.Mult)) and (_is_fresh_list(v.left) or _is_fresh_list(v.right)):
         return True
     return False
+
+
+def _class_digest(cls):
+    """x3: sha256 over the ast of a class's methods, doc strings and comments aside"""
+    import hashlib
+    tree = ast.parse(textwrap.dedent(inspect.getsource(cls))).body[0]
+    parts = []
+    for st in tree.body:
+        if isinstance(st, ast.FunctionDef):
+            body = st.body
+            if body and isinstance(body[0], ast.Expr) and isinstance(body[0].value, ast.Constant) and isinstance(body[0].value.value, str):
+                body = body[1:]
+            parts.append(st.name + ast.dump(st.args) + "".join(ast.dump(x) for x in body) + "".join(ast.dump(d) for d in st.decorator_list))
+    return hashlib.sha256("\n".join(parts).encode()).hexdigest()
 
 
 def _nested_mutation(n):
@@ -2357,6 +2549,8 @@ class Ctx:
         self.uses_env = set()      # lean names of functions that take the environment
         self.uses_ext = set()      # x3: lean names of functions that take the oracle
         self.recursive = {}        # x3: lean name -> id of its recursive group (functions that call each other)
+        self.state_fns = set()     # x3: lean names of functions that run in the state monad
+        self.loops = set()         # x3: lean names of functions with a `while` loop (they take fuel as well)
         self.dispatchers = {}      # name -> Lean definition text
         self.dispatcher_deps = {}
         self.tracked = []
@@ -2428,6 +2622,22 @@ class Ctx:
         return None
 
     # -- functions
+    def is_state_fn(self, f):
+        """x3: the first parameter is annotated with the state class (`tokenizer: Tokenizer`)"""
+        try:
+            node = ast.parse(textwrap.dedent(inspect.getsource(f))).body[0]
+        except (OSError, SyntaxError, TypeError):
+            return False
+        if not isinstance(node, ast.FunctionDef) or not node.args.args:
+            return False
+        ann = node.args.args[0].annotation
+        if isinstance(ann, ast.Constant) and isinstance(ann.value, str):
+            ann = ast.Name(id=ann.value, ctx=ast.Load())
+        if not isinstance(ann, ast.Name) or ann.id != STATE_CLASS[1]:
+            return False
+        c = f.__globals__.get(ann.id)
+        return inspect.isclass(c) and c.__module__ == STATE_CLASS[0]
+
     def ipf_of(self, f):
         """x3: index of the parameter that function f updates in place *and* returns at every `return` (the function is
         then translated as returning the updated value, and its callers rebind what they passed), else None"""
@@ -2486,6 +2696,8 @@ def generate(selected=None):
         ctx.uses_ext, ctx.recursive = set(uses_ext), dict(recursive)        # x3
         defs, info, arities = _translate_all(ctx)
         rec = _recursive_groups(ctx)
+        for n in ctx.loops:                     # a `while` loop is bounded by fuel too
+            rec.setdefault(n, n)
         if ctx.uses_env == uses_env and ctx.uses_ext == uses_ext and rec == recursive:
             break
         uses_env = set(ctx.uses_env)
@@ -2516,11 +2728,17 @@ def _translate_all(ctx):
             if n is None:
                 n = 1
                 arities[lean_name] = n
+            monad = "M"
+            if obj is not None and ctx.is_state_fn(obj):            # x3
+                ctx.state_fns.add(lean_name)
+                ctx.imports.add(STATE_IMPORT)
+                n -= 1
+                monad = STATE_MONAD
             params = " ".join(f"_a{i}" for i in range(n))
             env = "(_env : PyRt.Env) " if lean_name in ctx.uses_env else ""
             env += "(_ext : PyRt.Oracle) " if lean_name in ctx.uses_ext else ""
             text = (f"/-- NOT TRANSLATED: {err} -/\n"
-                    f"def {lean_name} {env}" + (f"({params} : PyVal) " if n else "") + ': M PyVal := throw "PySrcUnsupported"')
+                    f"def {lean_name} {env}" + (f"({params} : PyVal) " if n else "") + f': {monad} PyVal := throw "PySrcUnsupported"')
             info[lean_name] = {"supported": False, "why": err}
         else:
             info[lean_name] = {"supported": True}
@@ -2581,7 +2799,7 @@ def _assemble(ctx, defs, info, arities):
            "namespace Gen.PySrc", "open PyRt", ""]
     order = []
     for comp in comps:
-        recursive = len(comp) > 1 or comp[0] in succ(comp[0])
+        recursive = len(comp) > 1 or comp[0] in succ(comp[0]) or comp[0] in ctx.recursive
         if not recursive:
             n = comp[0]
             if n in ctx.dispatchers:
@@ -2603,12 +2821,13 @@ def _assemble(ctx, defs, info, arities):
             sup = n in good
             out.append(f"def {n}_supported : Bool := {'true' if sup else 'false'}")
             if not sup:                                  # a stub, ahead of the block (it calls nothing)
-                k = arities[n]
+                k = arities[n] - (1 if n in ctx.state_fns else 0)
+                monad = STATE_MONAD if n in ctx.state_fns else "M"
                 env = ("(_env : PyRt.Env) " if n in ctx.uses_env else "") + ("(_ext : PyRt.Oracle) " if n in ctx.uses_ext else "")
                 why = info[n].get("why") or "the group of recursive functions was not stable"
                 out.append(f"/-- NOT TRANSLATED: {why} -/")
                 out.append(f"def {n}__fuel {env}(_fuel : Nat) " + (f"({' '.join(f'_a{i}' for i in range(k))} : PyVal) " if k else "")
-                           + ': M PyVal := throw "PySrcUnsupported"')
+                           + f': {monad} PyVal := throw "PySrcUnsupported"')
         if len(good) > 1:
             out.append("mutual")
         for n in good:
@@ -2617,21 +2836,29 @@ def _assemble(ctx, defs, info, arities):
             out.append("end")
         out.append("")
         for n in comp:
-            k = arities[n]
+            k = arities[n] - (1 if n in ctx.state_fns else 0)
             ps = [f"a{i}" for i in range(k)]
             envd = ("(env : PyRt.Env) " if n in ctx.uses_env else "") + ("(ext : PyRt.Oracle) " if n in ctx.uses_ext else "")
             enva = (" env" if n in ctx.uses_env else "") + (" ext" if n in ctx.uses_ext else "")
             out.append(f"/-- entry point: the fuel bounds the recursion depth by the size of the arguments -/")
-            out.append(f"def {n} {envd}" + (f"({' '.join(ps)} : PyVal) " if ps else "") + ": M PyVal :=\n"
-                       f"  {n}__fuel{enva} (PyRt.fuelOf [{', '.join(ps)}])" + "".join(" " + q for q in ps))
+            if n in ctx.state_fns:
+                out.append(f"def {n} {envd}" + (f"({' '.join(ps)} : PyVal) " if ps else "") + f": {STATE_MONAD} PyVal := do\n"
+                           f"  {n}__fuel{enva} (PyTok.fuelOf (← get) [{', '.join(ps)}])" + "".join(" " + q for q in ps))
+            else:
+                out.append(f"def {n} {envd}" + (f"({' '.join(ps)} : PyVal) " if ps else "") + ": M PyVal :=\n"
+                           f"  {n}__fuel{enva} (PyRt.fuelOf [{', '.join(ps)}])" + "".join(" " + q for q in ps))
             out.append("")
     out.append("/-- every translated function by name, for the `src.call` driver operation -/")
     out.append("def table : List (String × Nat × (List PyVal → M PyVal)) :=")
     rows = []
     for n in order:
         k = arities[n]
-        call = n + (" (PyRt.envOf e)" if n in ctx.uses_env else "") + (" (PyRt.oracleOf x)" if n in ctx.uses_ext else "") \
-            + "".join(f" a{i}" for i in range(k))
+        if n in ctx.state_fns:                   # the tokenizer travels as the first argument and comes back with the result
+            call = "PyTok.runWire (" + n + (" (PyRt.envOf e)" if n in ctx.uses_env else "") + (" (PyRt.oracleOf x)" if n in ctx.uses_ext else "") \
+                + "".join(f" a{i}" for i in range(1, k)) + ") a0"
+        else:
+            call = n + (" (PyRt.envOf e)" if n in ctx.uses_env else "") + (" (PyRt.oracleOf x)" if n in ctx.uses_ext else "") \
+                + "".join(f" a{i}" for i in range(k))
         pats = ", ".join((["e"] if n in ctx.uses_env else []) + (["x"] if n in ctx.uses_ext else []) + [f"a{i}" for i in range(k)])
         kk = k + (1 if n in ctx.uses_env else 0) + (1 if n in ctx.uses_ext else 0)
         rows.append(f'  ("{n}", {kk}, fun (args : List PyVal) => (match args with | [{pats}] => {call} | _ => throw "PySrcArity" : M PyVal))')
